@@ -261,7 +261,7 @@ def run_query(db, q):
             info = db.GetCategoryInfo("Unknown")
             by_limits = not ((info.min_value is not None and not x >= info.min_value) or (info.max_value is not None and not x <= info.max_value))
             r = [su, ("verdict follows the limits registered now", su.IsValid() == by_limits), ("quantity belongs to the database asked", qk.GetUnitDatabase() is db),
-                 ("category record is the one registered now", qk.GetCategoryInfo() is info)]
+                 ("category record is the one registered now", qk.GetCategoryInfo() == info)]
         elif kind in ("ObtainQuantity(u,c,caption)", "ObtainQuantity(u,None,caption)"):
             # the rarely used third argument: captioned and caption-less requests for one (category, unit) are
             # different quantities and must not answer for each other
